@@ -343,11 +343,16 @@ fn run_val_inner(case: &ValCase, world: &World, model: &mut Model, out: &mut Out
         }
         if rejected {
             out.rejected += 1;
+        }
+        // a rejected call, and a read or write of nothing (whatever it returns), has no effect
+        let no_effect = rejected || (p.len == 0 && p.call != "discard");
+        if no_effect {
+            let how = if rejected { "was rejected" } else { "transfers nothing" };
             if let Some(req) = modifying_since(world, log0) {
-                return Err(own(Violation::new(Rule::SideEffect, format!("{what} was rejected but sent a modifying request to the backend: {req}")).at(pi)));
+                return Err(own(Violation::new(Rule::SideEffect, format!("{what} {how} but sent a modifying request to the backend: {req}")).at(pi)));
             }
             if dev.need_flush_meta() != nf0 {
-                return Err(own(Violation::new(Rule::SideEffect, format!("{what} was rejected but changed need_flush_meta() from {nf0} to {}", !nf0)).at(pi)));
+                return Err(own(Violation::new(Rule::SideEffect, format!("{what} {how} but changed need_flush_meta() from {nf0} to {}", !nf0)).at(pi)));
             }
         }
         if case.read_only {
